@@ -154,3 +154,65 @@ func H_C13_toplevel() {
 	verif.Assert(verif.Eq(r1, solo1) && verif.Eq(r2, solo2), "same-result")
 	verif.Reach("end")
 }
+
+// c13Extra: clause and function forms the other lists do not contain.
+var c13Extra = []string{
+	"SELECT a FROM t WHERE s LIKE 'a%'",
+	"SELECT a FROM t WHERE s NOT LIKE '%b'",
+	"SELECT a FROM t WHERE a BETWEEN 0 AND 5 AND s IN ('ab', 'x')",
+	"SELECT a, CASE WHEN a > 1 THEN 'hi' ELSE 'lo' END AS c FROM t ORDER BY a DESC LIMIT 1",
+	"SELECT DISTINCT s FROM t",
+	"SELECT s, COUNT(*) AS n, SUM(a) AS t FROM t GROUP BY s HAVING COUNT(*) > 0",
+	"SELECT a FROM t UNION SELECT a FROM u",
+	"SELECT CONCAT(s, a) AS c, TO_UPPER(s) AS up, CHANGETYPE(a, 'string') AS st, ELEMENTAT(arr, 0) AS e FROM t",
+	"SELECT SUBSTRING(s, 1, 1) AS v FROM t",
+	"SELECT x.a AS l, y.a AS r FROM t x LEFT JOIN u y ON x.a = y.a",
+	"SELECT x.a AS l, y.a AS r FROM t x JOIN u y ON x.a < y.a",
+	"SELECT a FROM `t{a, s|string}`",
+	"SELECT GETVAR('k') AS g, SETVAR('k', a) FROM t",
+	"SELECT ONCE.vid(a) AS o FROM t",
+}
+
+// H_C13_selfpairs: every query of the lists used by the other properties,
+// run by two threads at once on separate documents: any package-level
+// state a query writes (caches, scratch buffers, lazily initialised tables)
+// is a write/write race of the query with itself, whatever the schedule.
+func H_C13_selfpairs() {
+	lists := [][]string{c13Extra, c12Queries, c11Queries, c10Queries2, c13Queries}
+	li := verif.Choose("list", len(lists))
+	qi := verif.Choose("query", 100)
+	if qi >= len(lists[li]) {
+		verif.Assume(false)
+	}
+	RegisterFunction("vid", idFunc)
+	RegisterFunction("vfail", failingFunc)
+	RegisterFunction("vfault", idFunc)
+	verif.Opt("race", 1)
+	sql := ""
+	for i := 0; i < len(lists[li][qi]); i++ {
+		if lists[li][qi][i] == '?' {
+			sql += "1"
+		} else {
+			sql += lists[li][qi][i : i+1]
+		}
+	}
+	mk := func(base float64) Map {
+		row := func(a float64, s string) Map {
+			return Map{"a": a, "s": s, "o": Map{"k": a}, "arr": []any{a, "q"}, "items": []any{Map{"p": a, "q": a + 1}}, "dup": []any{a, a}}
+		}
+		return Map{
+			"t": []any{row(base, "ab"), row(base+1, "x")},
+			"u": []any{Map{"a": base}, Map{"a": base + 7}},
+			"a": Map{"b": base},
+			"g": float64(5),
+		}
+	}
+	d1, d2 := mk(1), mk(2)
+	var wg sync.WaitGroup
+	wg.Add(2)
+	go func() { defer wg.Done(); runQueryQuiet(d1, sql, WithVars(map[string]any{})) }()
+	go func() { defer wg.Done(); runQueryQuiet(d2, sql, WithVars(map[string]any{})) }()
+	wg.Wait()
+	verif.Drain()
+	verif.Reach("end")
+}
